@@ -802,19 +802,31 @@ fn eval_to_response(env: &mut Env, session: &Session) -> Response {
             position: None,
             id: None,
         },
-        Err(EvalError::AssertionFailed(position, message)) => Response {
-            kind: ResponseKind::Evaluate {
-                warnings: vec![],
-                value: Err(vec![ResponseError {
-                    message: message.as_string(),
-                    position: Some(position),
-                    stack: None,
-                }]),
-                stack_frame_name: Some(env.top_frame_name()),
-            },
-            position: None,
-            id: None,
-        },
+        Err(EvalError::AssertionFailed(position, message)) => {
+            // Report the failure the same way as the first time it
+            // happened (see `err_to_response`).
+            let stack = format_exception_with_stack(
+                &message,
+                &position,
+                &env.stack.0,
+                &env.vfs,
+                &env.project_root,
+            );
+
+            Response {
+                kind: ResponseKind::Evaluate {
+                    warnings: vec![],
+                    value: Err(vec![ResponseError {
+                        message: "Assertion failed".to_owned(),
+                        position: Some(position),
+                        stack: Some(stack),
+                    }]),
+                    stack_frame_name: Some(env.top_frame_name()),
+                },
+                position: None,
+                id: None,
+            }
+        }
         Err(EvalError::Interrupted) => Response {
             kind: ResponseKind::Evaluate {
                 warnings: vec![],
